@@ -716,6 +716,12 @@ def make_fault_wrapper():
                     d.addBoth(lambda r: Failure(grid.IntentionalError("injected late error in %s" % methname)))
                 d.addBoth(lambda r: self.rt.clock.callLater(act[1], d2.callback, r))
                 return d2
+            if act == "hold":           # the (correct) answer is kept back until release_held(): a server answering late
+                d2 = defer.Deferred()
+                if not hasattr(owner, "held_calls"):
+                    owner.held_calls = []
+                owner.held_calls.append((d2, d))
+                return d2
             if act == "hang":
                 d2 = defer.Deferred()
                 if not hasattr(owner, "hung_calls"):
@@ -724,6 +730,13 @@ def make_fault_wrapper():
                 d.addBoth(lambda r: None)
                 return d2
             return d
+
+        def release_held(self):
+            owner = self.owner
+            held, owner.held_calls = getattr(owner, "held_calls", []), []
+            for (d2, d) in held:
+                d.addBoth(d2.callback)
+            return len(held)
 
         def drop(self):
             owner = self.owner
@@ -1877,3 +1890,115 @@ def replay_sys_script(params, toks):
         return digs, {"results": dict(R.results), "unhandled": list(R.unhandled), "queued": len(R.queue)}
     finally:
         R.close()
+
+
+# ----------------------------------------------------------------------------- a share-location answer arriving while the node is idle
+
+def gen_late_dyhb_scenario(rng, mode=None, canonical=False):
+    """3 servers, 2-of-3, one share each, many segments.  Server `late`'s get_buckets answer is kept back until the node
+    has no running SegmentFetcher (after the first read finished, or while the consumer pauses between segments); then a
+    server that served blocks is lost; then (second-read) another read on the same node / (resume) the paused read goes
+    on: k intact shares are on answering servers.  control: both other servers are lost, one share is not enough."""
+    if canonical:
+        return {"kind": "late-dyhb", "mode": mode or "second-read", "size": 500, "segsize": 64, "grid_seed": 3,
+                "policy": "fifo", "dataseed": 9, "late": 2, "victim_pick": 0, "first_read": [0, 100]}
+    size = rng.choice([300, 500, 700])
+    off = rng.randrange(0, size - 1)
+    return {"kind": "late-dyhb", "mode": mode or rng.choice(["second-read", "second-read", "resume", "resume", "control"]),
+            "size": size, "segsize": rng.choice([32, 64, 128]), "grid_seed": rng.randrange(1 << 30),
+            "policy": rng.choice(["fifo", "random", "random"]), "dataseed": rng.randrange(1 << 30),
+            "late": rng.randrange(3), "victim_pick": rng.randrange(2), "first_read": [off, rng.randrange(1, size - off + 1)]}
+
+
+def run_late_dyhb(sc):
+    import random
+    from zope.interface import implementer
+    from twisted.internet.interfaces import IConsumer
+    from allmydata.immutable import upload
+    from allmydata.util.consumer import MemoryConsumer
+    rnd = random.Random(sc["dataseed"])
+    data = bytes(rnd.randrange(256) for _ in range(sc["size"]))
+    out = {"upload": "ok", "setup_ok": False, "result": None, "released": 0}
+
+    @implementer(IConsumer)
+    class PausingConsumer:
+        def __init__(self):
+            self.chunks, self.paused, self.producer = [], False, None
+
+        def registerProducer(self, p, streaming):
+            self.producer = p
+            p.resumeProducing()
+
+        def unregisterProducer(self):
+            pass
+
+        def write(self, d):
+            self.chunks.append(d)
+            if len(self.chunks) == 1:
+                self.paused = True
+                self.producer.pauseProducing()
+
+    def outcome(st, val, got, want):
+        if st == "ok":
+            return "ok" if got == want else "wrong-data"
+        return val.value.__class__.__name__ if st == "err" else "stuck"
+    del UNHANDLED[:]
+    with fault_grid(sc["grid_seed"], sc["policy"], "c03ld", num_servers=3, num_clients=1, k=2, happy=1, n=3,
+                    max_segment_size=sc["segsize"]) as (rt, g):
+        c = g.clients[0]
+        (st, res), = wait_all(rt, [c.upload(upload.Data(data, convergence=b"c" * 16))])
+        if st != "ok":
+            out["upload"] = st
+            return out
+        X = sc["late"]
+        others = [s for s in sorted(g.wrappers) if s != X]
+        g.wrappers[X].plan = lambda m, i: "hold" if m == "get_buckets" else None
+        node = c.create_node_from_uri(res.get_uri())
+        dnf = lambda: node._cnode._node          # created lazily by the first read
+        if sc["mode"] == "resume":
+            pc = PausingConsumer()
+            d = node.read(pc, 0, sc["size"])
+            box = []
+            d.addBoth(box.append)
+            rt.settle()
+            if not pc.paused or box or dnf()._active_segment is not None:
+                return out                                   # the consumer did not get to pause an idle node
+            out["released"] = g.wrappers[X].release_held()   # the late answer arrives during the pause
+            rt.settle()
+            g.wrappers[others[sc["victim_pick"]]].drop()     # then a server used so far goes away
+            out["setup_ok"] = out["released"] > 0
+            pc.paused = False
+            pc.producer.resumeProducing()
+            d2 = defer_from_box(d, box)
+            (st, val), = wait_all(rt, [d2], horizon=300)
+            out["result"] = outcome(st, val, b"".join(pc.chunks), data)
+        else:
+            off, sz = sc["first_read"]
+            mc = MemoryConsumer()
+            (st, val), = wait_all(rt, [node.read(mc, off, sz)], horizon=300)
+            out["read1"] = outcome(st, val, b"".join(mc.chunks), data[off:off + sz])
+            if out["read1"] != "ok" or dnf()._active_segment is not None:
+                return out
+            out["released"] = g.wrappers[X].release_held()   # the late answer arrives while the node is idle
+            rt.settle()
+            lost = others if sc["mode"] == "control" else [others[sc["victim_pick"]]]
+            for srv in lost:
+                g.wrappers[srv].drop()
+            out["setup_ok"] = out["released"] > 0
+            mc = MemoryConsumer()
+            (st, val), = wait_all(rt, [node.read(mc, 0, sc["size"])], horizon=300)
+            out["result"] = outcome(st, val, b"".join(mc.chunks), data)
+        out["node_shares"] = len(dnf()._shares)
+        out["unhandled"] = sorted(set(UNHANDLED))
+    return out
+
+
+def defer_from_box(d, box):
+    """a Deferred that fires with what `d` (already observed through `box`) fires with"""
+    from twisted.internet import defer
+    d2 = defer.Deferred()
+    if box:
+        d2.callback(box[0])
+    else:
+        d.addBoth(d2.callback)
+    return d2
